@@ -12,6 +12,7 @@ import (
 	"testing"
 	"time"
 
+	sdkmath "cosmossdk.io/math"
 	sdk "github.com/cosmos/cosmos-sdk/types"
 	banktypes "github.com/cosmos/cosmos-sdk/x/bank/types"
 	"pgregory.net/rapid"
@@ -68,6 +69,7 @@ type History struct {
 	Known     map[string]bool // known-finding ids hit
 	Excluded  map[string]int
 	Ext       map[string]any // per-profile scratch (models)
+	LastPrice map[string]sdkmath.LegacyDec // last elys-source price seen per asset display
 }
 
 type Profile struct {
@@ -86,6 +88,9 @@ type Profile struct {
 	NonTrivial  func(h *History) bool
 	Rule        string
 	Gaps        []time.Duration
+	// BlockFailureIsViolation: FinalizeBlock/Commit error or panic is this property's violation (C18)
+	BlockFailureIsViolation bool
+	VaryFees                bool // pay tx fees in any funded denom
 }
 
 var defaultGaps = []time.Duration{time.Second, 5 * time.Second, 5 * time.Second, 6 * time.Second, 5 * time.Second, time.Hour + time.Second, 24*time.Hour + time.Second, 8 * 24 * time.Hour}
@@ -138,7 +143,7 @@ func newHistory(p *Profile, spec WorldSpec) (*History, error) {
 		return nil, err
 	}
 	h := &History{P: p, W: w, OpOK: map[string]int{}, OpFail: map[string]int{}, Labels: map[string]int{},
-		Donations: map[string]sdk.Coins{}, Known: map[string]bool{}, Excluded: map[string]int{}, Ext: map[string]any{}}
+		Donations: map[string]sdk.Coins{}, Known: map[string]bool{}, Excluded: map[string]int{}, Ext: map[string]any{}, LastPrice: map[string]sdkmath.LegacyDec{}}
 	h.Trace = Trace{Property: p.ID, Profile: p.Name, Spec: spec}
 	if p.Prepare != nil {
 		if err := p.Prepare(h); err != nil {
@@ -146,7 +151,16 @@ func newHistory(p *Profile, spec WorldSpec) (*History, error) {
 		}
 	}
 	h.Cur = w.Snapshot()
+	h.rememberPrices()
 	return h, nil
+}
+
+func (h *History) rememberPrices() {
+	for _, p := range h.Cur.Prices {
+		if p.Source == "elys" {
+			h.LastPrice[p.Asset] = p.Price
+		}
+	}
 }
 
 // step executes one block (already queued in w.Pending) and evaluates invariants.
@@ -175,10 +189,14 @@ func (h *History) step(gap time.Duration, env []EnvAction, kinds []string) []Vio
 	tb.Hash = hex.EncodeToString(blk.AppHash)
 	h.Trace.Blocks = append(h.Trace.Blocks, tb)
 	if w.BlockErr != nil {
+		if os.Getenv("VERIF_DEBUG_STACK") != "" {
+			fmt.Fprintln(os.Stderr, w.BlockErrStack)
+		}
 		return []Violation{{Sig: "block-processing-failed", Detail: w.BlockErr.Error()}}
 	}
 	h.Prev = h.Cur
 	h.Cur = w.Snapshot()
+	h.rememberPrices()
 	// harness-known donations
 	for i, tx := range blk.Txs {
 		if tx.Code == 0 && i < len(kinds) && kinds[i] == "bank.send_to_pool" {
@@ -187,6 +205,21 @@ func (h *History) step(gap time.Duration, env []EnvAction, kinds []string) []Vio
 			}
 		}
 	}
+	if os.Getenv("VERIF_DEBUG_EVENTS") != "" {
+		for _, e := range blk.Events {
+			if e.Type == "coinbase" || e.Type == "burn" {
+				fmt.Fprintf(os.Stderr, "height %d block-event %s %v\n", blk.Height, e.Type, e.Attributes)
+			}
+		}
+		for _, tx := range blk.Txs {
+			for _, e := range tx.Events {
+				if e.Type == "coinbase" || e.Type == "burn" {
+					fmt.Fprintf(os.Stderr, "height %d tx-event %s %s %v\n", blk.Height, tx.MsgType, e.Type, e.Attributes)
+				}
+			}
+		}
+	}
+	h.computeLabels(blk, gap, kinds)
 	if h.P.Check != nil {
 		return h.P.Check(h, blk)
 	}
@@ -217,7 +250,7 @@ func RunHistory(t *rapid.T, p *Profile) {
 	gaps := p.gaps()
 	var viol []Violation
 	for b := 0; b < nBlocks && len(viol) == 0; b++ {
-		g := &G{T: t, W: h.W, S: h.Cur, Busy: map[string]bool{}}
+		g := &G{T: t, H: h, W: h.W, S: h.Cur, Busy: map[string]bool{}}
 		var env []EnvAction
 		if p.PreBlock != nil {
 			env = p.PreBlock(h, g)
@@ -245,12 +278,22 @@ func RunHistory(t *rapid.T, p *Profile) {
 			fee := op.Fee
 			if fee == nil {
 				fee = DefaultFee
+				if p.VaryFees && g.Int("feedenom", 0, 3) == 0 {
+					d := h.W.Scenario.Denoms[g.Pick("feed", len(h.W.Scenario.Denoms))]
+					fee = sdk.NewCoins(sdk.NewInt64Coin(d, int64(g.Int("feeamt", 1, 5000))))
+				}
 			}
 			h.W.SubmitFee(op.Signer, fee, op.Msg)
 			kinds = append(kinds, op.Kind)
 		}
 		gap := gaps[g.Pick("gap", len(gaps))]
 		viol = h.step(gap, env, kinds)
+		if len(viol) == 1 && viol[0].Sig == "block-processing-failed" && !p.BlockFailureIsViolation {
+			// a failed block is C18's (and C19's) business; other properties' histories just end here
+			h.Labels["aborted-by-block-failure"]++
+			viol = nil
+			break
+		}
 		viol = h.filterKnown(viol)
 	}
 	if len(viol) == 0 && p.Final != nil {
@@ -308,7 +351,7 @@ func (h *History) filterKnown(vs []Violation) []Violation {
 	for _, v := range vs {
 		matched := false
 		for _, k := range loadKnown() {
-			if k.Status != "open" || k.Property != h.P.ID {
+			if k.Status != "open" || k.Property != h.P.ID || k.Signature == "" {
 				continue
 			}
 			if re, err := regexp.Compile(k.Signature); err == nil && re.MatchString(v.Sig+": "+v.Detail) {
@@ -419,41 +462,50 @@ func writeFailTrace(tr *Trace) {
 // ReplayTrace re-executes a recorded history without rapid and returns the
 // violations the profile's oracle reports.
 func ReplayTrace(p *Profile, tr *Trace) ([]Violation, error) {
+	_, v, err := ReplayTraceH(p, tr)
+	return v, err
+}
+
+// ReplayTraceH also returns the history (labels, known-finding hits).
+func ReplayTraceH(p *Profile, tr *Trace) (*History, []Violation, error) {
 	h, err := newHistory(p, tr.Spec)
 	if err != nil {
-		return nil, err
+		return nil, nil, err
 	}
 	for _, b := range tr.Blocks {
 		for _, e := range b.Env {
 			if err := ApplyEnv(h.W, e); err != nil {
-				return nil, err
+				return nil, nil, err
 			}
 		}
 		var kinds []string
 		for _, tx := range b.Txs {
 			var msg sdk.Msg
 			if err := h.W.App.AppCodec().UnmarshalInterfaceJSON(tx.Msg, &msg); err != nil {
-				return nil, fmt.Errorf("decode msg: %w", err)
+				return nil, nil, fmt.Errorf("decode msg: %w", err)
 			}
 			acc := h.W.accountByName(tx.Signer)
 			if acc == nil {
-				return nil, fmt.Errorf("unknown signer %s", tx.Signer)
+				return nil, nil, fmt.Errorf("unknown signer %s", tx.Signer)
 			}
 			fee, err := sdk.ParseCoinsNormalized(tx.Fee)
 			if err != nil {
-				return nil, err
+				return nil, nil, err
 			}
 			h.W.SubmitFee(acc, fee, msg)
 			kinds = append(kinds, tx.Kind)
 		}
 		if v := h.step(time.Duration(b.GapNs), b.Env, kinds); len(v) > 0 {
-			return v, nil
+			if len(v) == 1 && v[0].Sig == "block-processing-failed" && !p.BlockFailureIsViolation {
+				return h, nil, nil
+			}
+			return h, h.filterKnown(v), nil
 		}
 	}
 	if p.Final != nil {
-		return p.Final(h), nil
+		return h, h.filterKnown(p.Final(h)), nil
 	}
-	return nil, nil
+	return h, nil, nil
 }
 
 func (w *World) accountByName(n string) *Account {
@@ -471,6 +523,9 @@ func LoadTrace(path string) (*Trace, error) {
 		return nil, err
 	}
 	var tr Trace
+	// fields added to the scenario after a trace was recorded keep their defaults
+	tr.Spec = DefaultWorldSpec()
+	tr.Spec.Pools, tr.Spec.GovMsgs = nil, nil
 	if err := json.Unmarshal(bz, &tr); err != nil {
 		return nil, err
 	}
@@ -499,20 +554,23 @@ func RunProfileTest(t *testing.T, p *Profile) {
 			continue
 		}
 		tr, err := LoadTrace(k.Replay)
-		if err != nil || tr.Profile != p.Name {
-			continue
+		if err != nil {
+			t.Fatalf("harness: finding trace %s: %v", k.Replay, err)
 		}
-		vs, err := ReplayTrace(p, tr)
+		hh, vs, err := ReplayTraceH(p, tr)
 		if err != nil {
 			t.Fatalf("harness: replay of finding %s: %v", k.ID, err)
 		}
-		if len(vs) > 0 {
-			if k.Status == "open" {
-				EmitStats(map[string]any{"known_replay": k.ID, "property": p.ID, "what": k.What})
-			} else {
-				os.Setenv("VERIF_FAILTRACE_COPY", k.Replay)
-				t.Fatalf("VIOLATION %s (fixed finding %s returned): %s — %s", p.ID, k.ID, vs[0].Sig, vs[0].Detail)
+		if hh != nil {
+			for _, id := range sortedKeys(hh.Known) {
+				EmitStats(map[string]any{"known_replay": id, "property": p.ID})
 			}
+		}
+		if len(vs) > 0 {
+			// open findings were already filtered out by filterKnown / compensated by the oracle:
+			// whatever is left is a violation (a fixed entry suppresses nothing)
+			writeFailTrace(tr)
+			t.Fatalf("VIOLATION %s (replay of finding trace %s): %s — %s", p.ID, k.ID, vs[0].Sig, vs[0].Detail)
 		}
 	}
 	rapid.Check(t, func(rt *rapid.T) { RunHistory(rt, p) })
@@ -520,4 +578,14 @@ func RunProfileTest(t *testing.T, p *Profile) {
 
 func sortViolations(v []Violation) {
 	sort.Slice(v, func(i, j int) bool { return v[i].Sig < v[j].Sig })
+}
+
+// FindingOpen reports whether the committed known-findings file lists id as open.
+func FindingOpen(id string) bool {
+	for _, k := range loadKnown() {
+		if k.ID == id {
+			return k.Status == "open"
+		}
+	}
+	return false
 }
